@@ -18,7 +18,7 @@ RULE = (
 ASSUMPTIONS = [
     "parameter domains as for C11",
     "entries at or after a position where the reference mu_i is within 1e-6 u of 0 or u are not judged (conventions the statement does not fix); counted in skipped_not_judged",
-    "the entry at which the running total first exceeds N t is accepted as either 0 or the product (C05 fixes that it may only be lowered); later entries must be 0",
+    "the entry at which the running total first exceeds N t is accepted as either 0 or the product (C05 fixes that it may only be lowered) unless it is the last entry of an ALPHA or betting history, which must be 0; later entries must be 0",
     "for the SPRT the entries at or after a position where (N eta - S)/(N-j+1) leaves [0,u] are not judged (alternative impossible)",
     "products compared with relative tolerance 1e-9; conversion round trips with 1e-7 where mu is at least 1e-3 u away from 0 and no closer than 1e-6 u to u",
 ]
@@ -55,6 +55,14 @@ def strategy(shard):
             x = ([u] * k + [0.0] + [u] * draw(st.integers(0, 58 - k)))
             if cfg["N"] is not None:
                 x = x[: cfg["N"]]
+        if cfg["N"] is not None and len(x) >= 1 and draw(st.integers(0, 7)) == 0:
+            # a small population sampled nearly to exhaustion in which the LAST draw is the one that takes the total over N t
+            x = [float(v) for v in x]
+            cfg["N"] = len(x) + draw(st.integers(0, 2))
+            head = x[:-1]
+            while head and sum(head) > cfg["N"] * cfg["t"]:
+                head[head.index(max(head))] = 0.0
+            x = head + [float(u)]
         conv = {"mu": u * draw(st.one_of(st.floats(1e-3, 1 - 1e-3), st.sampled_from([1 - 1e-6, 1 - 4e-6, 1 - 1e-5, 1 - 1e-4]))),
                 "lam": draw(st.floats(0.0, 2.0)) / u, "eta_frac": draw(st.floats(0.0, 1.0))}
         return {"cfg": cfg, "x": x, "conv": conv}
@@ -120,7 +128,11 @@ def reference_history(cfg, x, seq):
                     T *= (x[j] * e / m + (u - x[j]) * (u - e) / (u - m)) / u
                 S2 = S + x[j]
                 if N is not None and S2 > N * t:
-                    out.append((("either", _p(T)), "total-first-exceeds"))
+                    if j == n - 1 and test in ("alpha_mart", "betting_mart") and S2 > N * t * (1 + 1e-9) + 1e-9:
+                        # the last draw takes the total over N t (clearly, not by a rounding error): p = 0 there
+                        out.append((0.0, "p=0-total-exceeds-at-the-last-draw"))
+                    else:
+                        out.append((("either", _p(T)), "total-first-exceeds"))
                 elif T < 1e-12:
                     # 'martingale effectively vanishes': p = 1 by the definition min(1,1/T) as well
                     out.append((1.0, "vanished"))
